@@ -578,6 +578,17 @@ func (p *scanner) digits(min, max int) int64 {
 	return v
 }
 
+// frac: time.Parse accepts a fractional second right after the seconds field even when the
+// layout has none (".5", ",123"); Unix() drops it.
+func (p *scanner) frac() {
+	if p.i+1 < len(p.s) && (p.s[p.i] == '.' || p.s[p.i] == ',') && p.s[p.i+1] >= '0' && p.s[p.i+1] <= '9' {
+		p.i++
+		for p.i < len(p.s) && p.s[p.i] >= '0' && p.s[p.i] <= '9' {
+			p.i++
+		}
+	}
+}
+
 func (p *scanner) lit(l string) {
 	if strings.HasPrefix(p.s[p.i:], l) {
 		p.i += len(l)
@@ -587,7 +598,8 @@ func (p *scanner) lit(l string) {
 }
 
 // ParseCivil is a strict parser for the KnownLayouts: exact field widths, exact
-// separators, nothing before or after. ok=false for anything else. The
+// separators, nothing before or after - except the one liberty time.Parse documents: a
+// fractional second directly after the seconds field. ok=false for anything else. The
 // generators only produce texts on which strictness cannot differ from the
 // documented time.Parse behaviour (see DESIGN.md §2.4).
 func ParseCivil(s, layout string) (Civil, bool) {
@@ -613,6 +625,7 @@ func ParseCivil(s, layout string) (Civil, bool) {
 		c.Mi = p.digits(2, 2)
 		p.lit(":")
 		c.S = p.digits(2, 2)
+		p.frac()
 	case LayoutYDM:
 		c.Y = p.digits(4, 4)
 		p.lit("-")
@@ -627,6 +640,7 @@ func ParseCivil(s, layout string) (Civil, bool) {
 		c.D = p.digits(2, 2)
 		p.lit(" ")
 		c.S = p.digits(2, 2)
+		p.frac()
 		p.lit(":")
 		c.Mi = p.digits(2, 2)
 		p.lit(":")
@@ -649,6 +663,7 @@ func ParseCivil(s, layout string) (Civil, bool) {
 		c.Mi = p.digits(2, 2)
 		p.lit(":")
 		c.S = p.digits(2, 2)
+		p.frac()
 		if p.ok && p.i < len(p.s) && p.s[p.i] == 'Z' {
 			p.i++
 		} else if p.ok && p.i < len(p.s) && (p.s[p.i] == '+' || p.s[p.i] == '-') {
